@@ -75,3 +75,19 @@ Theorem C14_kill_never_alters_completed_entry :
     FileSafe.freach c (finit n prog fs0) s -> outs_kept (fsy s) (fsy (kill_proc s m)) = true.
 Proof. intros c n prog fs0 s m H1 H2 H3 H4. eapply outs_never_altered; eauto. apply ft_kill. Qed.
 Print Assumptions C14_kill_never_alters_completed_entry.
+
+(* ---- the interactive cache at point level (Model/CacheExec.v: the cache steps of a worker thread
+   laid over Model/Exec.v; tied to the code by full lockstep incl. hits, identical calls in flight,
+   sessions and killed workers).  Proofs/CacheSafe.v.  Every program (cancellations and failing
+   calls included), worker count, schedule, kill of a worker thread and initial directory of
+   result files with prefixes of [function; input_args; input_kwargs; output]. ---- *)
+From EL Require Model.Exec Model.FileExec Model.FileSpec Model.CacheExec Model.CacheSpec Proofs.CacheSafe.
+
+(* the directory of the interactive cache only ever holds result files whose datasets are a prefix of
+   [function; input_args; input_kwargs; output], whatever is killed when; a completed one never changes *)
+Theorem C14_interactive_cache_directory_invariant :
+  forall c n prog fs0 s,
+    CacheSpec.dir_ok fs0 = true -> CacheSafe.fs_wf fs0 -> CacheSafe.creach c (CacheExec.cinit n prog fs0) s ->
+    CacheSpec.dir_ok (CacheExec.cfs s) = true /\ CacheSafe.fs_wf (CacheExec.cfs s).
+Proof. exact CacheSafe.dir_inv. Qed.
+Print Assumptions C14_interactive_cache_directory_invariant.
